@@ -46,6 +46,9 @@ def pick_size(r, m, t, geom, allow_big=True):
     g = GEOM[geom]
     blk = g["block"]
     x = r.random()
+    # exactly one header's worth of room left in the block: an empty payload ends exactly at the block end
+    if m.room(t) == PREFIX and r.random() < 0.7:
+        return 0
     if x < 0.30:
         return r.choice([0, 1, 7, 8, 9, 64, 100, 127, 128, 129, 200])
     if x < 0.55:
@@ -53,7 +56,7 @@ def pick_size(r, m, t, geom, allow_big=True):
     if x < 0.75:
         # aim at the end of the current block
         room = m.room(t) - PREFIX
-        cand = room + r.choice([-2, -1, 0, 0, 1, 2])
+        cand = room + r.choice([-2, -1, 0, 0, 1, 2, -PREFIX, -PREFIX, -PREFIX - 1, -PREFIX + 1])
         if 0 <= cand <= g["max_alloc"] - PREFIX:
             return cand
         return 100
@@ -93,7 +96,8 @@ def gen_behaviour(r, profile, geom, bid, cfg, length=None, safe_first=False):
         "drain":   {"append": 50, "batch": 10, "read": 10, "bread": 30},
         "cap":     {"small": 55, "batch6": 15, "bread_big": 20, "read": 5, "bread": 5},
         "crashw":  {"append": 35, "batch": 25, "read": 15, "bread": 20, "fill": 5},
-        "reclaim": {"fill": 45, "append": 5, "read": 12, "bread": 18, "peek": 8, "poll": 8, "reopen": 4},
+        "reclaim": {"fill": 42, "append": 5, "small": 4, "read": 12, "bread": 16, "peek": 7, "oread": 6, "poll": 6, "reopen": 4},
+        "peekfill": {"fill": 40, "small": 8, "read": 10, "bread": 14, "peek": 12, "oread": 16},
     }[profile]
     kinds = list(W.keys())
     weights = [W[k] for k in kinds]
@@ -265,9 +269,56 @@ def corpus(profile, geom, n, seed, cfgs=None, prefix="r", safe_first=False, leng
     out = []
     for i in range(n):
         cfg = cfgs[i % len(cfgs)]
+        if profile == "oreclaim":
+            out.append(oreclaim_behaviour(r, geom, "%s%d" % (prefix, i), cfg))
+            continue
         out.append(gen_behaviour(r, profile, geom, "%s%d" % (prefix, i), cfg, safe_first=safe_first,
                                  length=(r.randint(*length) if length else None)))
     return out
+
+
+def oreclaim_behaviour(r, geom, bid, cfg):
+    """Scenario family for "non-consuming reads must not make data reclaimable" (C02/C12): one topic's
+    block with only small entries stays unconsumed while every other block of the (fully allocated) file
+    is consumed by another topic; then peeks and offset reads at block boundaries are issued."""
+    g = GEOM[geom]
+    ids = IdGen()
+    blk = g["block"]
+    ops = []
+    first, other = r.choice([("a", "b"), ("b", "a")])
+    nsmall = r.randint(1, 5)
+    smalls = [r.choice([8, 9, 64, 100, 127]) for _ in range(nsmall)]
+    for sz in smalls:
+        ops.append({"op": "append", "t": first, "id": ids.next(), "size": sz})
+    nfill = g["bpf"] - 1 if geom == "tiny" else 3
+    for _ in range(nfill):
+        ops.append({"op": "append", "t": other, "id": ids.next(), "size": blk - PREFIX - r.choice([0, 0, 1, 7])})
+    # seal the small block (rotation of `first`) and the last block of `other`
+    ops.append({"op": "append", "t": first, "id": ids.next(), "size": blk - PREFIX - r.choice([0, 3])})
+    ops.append({"op": "append", "t": other, "id": ids.next(), "size": r.choice([100, 300])})
+    for _ in range(nfill):
+        ops.append(r.choice([{"op": "read", "t": other, "ckpt": True},
+                             {"op": "bread", "t": other, "budget": r.choice([-1, 100, blk]), "ckpt": True, "off": -1}]))
+    ops.append({"op": "read", "t": other, "ckpt": True})
+    used = sum(PREFIX + x for x in smalls)
+    for _ in range(r.randint(2, 5)):
+        k = r.random()
+        if k < 0.5:
+            off = r.choice([0, 0, used, used, used + 1, PREFIX, used - 1])
+            ops.append({"op": "bread", "t": first, "budget": r.choice([-1, 0, 100, 600]), "ckpt": r.random() < 0.5,
+                        "off": max(0, off), "nc": True})
+        elif k < 0.8:
+            ops.append({"op": "bread", "t": first, "budget": r.choice([-1, 0, 100]), "ckpt": False, "off": -1, "nc": True})
+        else:
+            ops.append({"op": "read", "t": first, "ckpt": False, "nc": True})
+    for t in (first, other):
+        for _ in range(3):
+            ops.append({"op": "bread", "t": t, "budget": -1, "ckpt": True, "off": -1})
+        ops.append({"op": "read", "t": t, "ckpt": True})
+    c = dict(cfg)
+    c["topics"] = ["a", "b"]
+    c["proj"] = True
+    return {"id": bid, "cfg": c, "ops": ops}
 
 
 def multi_instance(r, geom, bid, cfg, n_inst=2):
